@@ -321,7 +321,7 @@ fn build_hostile<M: ZooMsg + ?Sized>(sc: &Scenario, dec: &mut Decider, stats: &m
 /// receiver then does.)
 fn content_error_everywhere<M: ZooMsg + ?Sized>(c: &[u8], rest: &[u8]) -> bool {
     let is_content = |bytes: &[u8]| -> Option<bool> {
-        let b = AlignedBytes::from_slice(bytes, M::ALIGN.max(1));
+        let b = crate::val::Acopy::new(bytes, M::ALIGN);
         match guarded(|| M::validate(&b)) {
             Ok(Ok(())) => Some(false),
             Ok(Err(e)) => Some(!matches!(e.kind, ErrorKind::InsufficientSize)),
@@ -344,7 +344,7 @@ fn content_error_everywhere<M: ZooMsg + ?Sized>(c: &[u8], rest: &[u8]) -> bool {
         return false;
     }
     for k in 0..c.len() {
-        let b = AlignedBytes::from_slice(&c[..k], M::ALIGN.max(1));
+        let b = crate::val::Acopy::new(&c[..k], M::ALIGN);
         match guarded(|| M::validate(&b)) {
             Ok(Ok(())) => return false,
             Err(_) => return false,
